@@ -60,6 +60,14 @@ def gen(rng, tier, shape=None):
             if mode == ["disable"]:
                 fl = []
             steps.append({"op": "run", "flags": fl + mode, "answers": {c: rng.random() < 0.5 for c in common.CATS}})
+    if rng.random() < 0.35 and cur:
+        # an outsourced-but-unreferenced file must not survive the start of the next session, whatever that session's flags
+        # are: leave one behind (a run that approves nothing), change the data, start an inactive / reporting session
+        k = rng.choice(list(cur))
+        steps.append({"op": "run", "flags": rng.choice([[], ["report"], ["fix"]]), "answers": {c: False for c in common.CATS}})
+        cur[k] = rng.choice(data)
+        steps.append({"op": "set", "k": k, "data": cur[k]})
+        steps.append({"op": "run", "flags": rng.choice([["disable"], ["disable"], ["report"], ["short-report"], []]), "answers": {c: False for c in common.CATS}})
     if not any(s["op"] == "run" for s in steps):
         steps.append({"op": "run", "flags": ["create"], "answers": {c: False for c in common.CATS}})
     return {"hash_length": hl, "steps": steps, "storage_dir": rng.choice([None, None, "snaps"])}
